@@ -110,6 +110,7 @@ func runC18(c *Ctx) {
 	// ---------------- time
 	c.timeThresholds()
 	c.asn1WriterRules()
+	printableRules(c, []string{"z/encoding/asn1.parsePrintableString"})
 
 	// ---------------- identifier and length forms
 	if fn := w.Fn(ap + ".appendTagAndLength"); fn != nil {
